@@ -1259,6 +1259,7 @@ void SPxSolverBase<R>::setType(Type tp)
          leaveCount = base.leaveCount;
          enterCount = base.enterCount;
          theCumulativeTime = base.theCumulativeTime;
+         random = base.random;
          primalCount = base.primalCount;
          polishCount = base.polishCount;
          boundflips = base.boundflips;
@@ -1502,6 +1503,7 @@ void SPxSolverBase<R>::setType(Type tp)
       , spxout(base.spxout)
       , integerVariables(base.integerVariables)
    {
+      random = base.random;
       theTime = TimerFactory::createTimer(timerType);
       multTimeSparse = TimerFactory::createTimer(timerType);
       multTimeFull = TimerFactory::createTimer(timerType);
